@@ -58,14 +58,14 @@ fn unicode_label(input: Input<'_>) -> ParserResult<'_, &str> {
 fn exports(input: Input<'_>) -> ParserResult<'_, Exports> {
     skip_ws_and_comments(delimited(
         tag(EXPORTS),
-        skip_ws(alt((
+        skip_ws_and_comments(alt((
             value(Exports::All, tag(ALL)),
             into(separated_list1(
-                skip_ws(char(COMMA)),
-                skip_ws(alt((parameterized_identifier, identifier))),
+                skip_ws_and_comments(char(COMMA)),
+                skip_ws_and_comments(alt((parameterized_identifier, identifier))),
             )),
         ))),
-        char(SEMICOLON),
+        skip_ws_and_comments(char(SEMICOLON)),
     ))
     .parse(input)
 }
@@ -135,8 +135,8 @@ fn global_module_reference(input: Input<'_>) -> ParserResult<'_, GlobalModuleRef
 fn import(input: Input<'_>) -> ParserResult<'_, Import> {
     into(skip_ws_and_comments(pair(
         separated_list1(
-            skip_ws(char(COMMA)),
-            skip_ws(alt((parameterized_identifier, identifier))),
+            skip_ws_and_comments(char(COMMA)),
+            skip_ws_and_comments(alt((parameterized_identifier, identifier))),
         ),
         preceded(
             skip_ws_and_comments(tag(FROM)),
